@@ -322,3 +322,10 @@ def nontrivial(c, obs):
     if c.get("t") == "caps":
         return True
     return any(op[0] == "read" or op[2] == "native" or op[4] or any(not u.startswith("https://") or "#" in u for u in op[1]) for op in c["ops"])
+
+
+def generated_obligations():
+    """every_alg_param_is_filtered: one kernel-decided membership per algorithm parameter of the regenerated registration schema"""
+    import re
+    from idpyoidc.message.oidc import RegistrationRequest
+    return len([p for p in RegistrationRequest.c_param if re.search(r"_(alg|enc)$", p)])
